@@ -94,12 +94,18 @@ struct VarWorld
 		else if (shape == 1) { if (alt & 1) d = Var(Var::OBJ); else d = Dic<Var>(); }
 		else if (shape == 2)
 		{
+			if (alt % 3 == 2) { d = (Var(), 1, 2, 3); return; }        // pseudo-literal built with operator,
 			Array<Var> a;
 			a << Var(1) << Var(2) << Var(3);
 			if (alt & 1) d = Var(a); else d = a;
 		}
 		else
 		{
+			if (alt % 3 == 2)                                            // pseudo-literal built with Var(key, value)(key, value)...
+			{
+				d = Var(String(tb.key(1).c_str()), Var(1))(tb.key(2).c_str(), 2)(String(tb.key(3).c_str()), 3);
+				return;
+			}
 			Dic<Var> o;
 			for (int k = 1; k <= 3; k++) o[String(tb.key(k).c_str())] = k;
 			if (alt & 1) d = Var(o); else d = o;
